@@ -24,7 +24,7 @@ from vf import c17_pool as P
 from vf.run import VERIF, Check, Res
 from vf.spec import show
 
-N_SHARDS = {"quick": 2, "thorough": 4}       # pool shards per (producer, consumer) pair
+N_SHARDS = {"quick": 4, "thorough": 8}       # pool shards per consumer configuration
 WORKER_TIMEOUT = 400
 PROD_HISTS = P.producer_histories()
 CONS_HISTORIES = P.state_graph()[2]
@@ -81,29 +81,36 @@ class C17(Check):
     chunk = 1
     item_timeout = 2 * WORKER_TIMEOUT + 60
     rule = (
-        "configurations = PYTHONHASHSEED {0,1,4242} (thorough {0,1,7,4242}) x {python, python -O}; "
-        "EVERY ordered (producer, consumer) pair of configurations, each side a separate "
-        "subprocess. Pool: every built-in constructor shape (61), 39 further built-in instances "
-        "(every constant kind incl. big ints / numpy scalars / non-ASCII names, empty and "
-        "one-element nodes, geometric-algebra nodes, a 13-level tree, shared sub-objects), "
+        "configurations = PYTHONHASHSEED {0,1,4242} (thorough {0,1,2,7,123,4242}) x {python, "
+        "python -O}; EVERY ordered (producer, consumer) pair of configurations (36 / 144), each "
+        "side a separate subprocess: one producer process per configuration, and every consumer "
+        "configuration consumes the pickles of every producer. Pool: every built-in constructor shape (61), 39 further built-in instances "
+        "(every constant kind incl. big ints / numpy scalars of every precision (float16/32/64, "
+        "complex64/128, int8, uint64, bool; values that are not exactly representable) / "
+        "non-ASCII names, empty and one-element nodes, geometric-algebra nodes, a 13-level tree, shared sub-objects), "
         "Polynomial and Rational, all " + str(len(P.user_entries())) + " generated user classes "
         "(decorated, also with init=False / hash=False / undecorated / "
         "legacy / mixed) with expression-valued fields, plus "
         + str(len(P.user_flat_entries("quick"))) + " (thorough "
-        + str(len(P.user_flat_entries())) + ") of them with str/int-only fields, (parent, position, child) nestings over one representative shape per "
+        + str(len(P.user_flat_entries())) + ") of them with str/int-only fields, 3 old-style classes that implement only the "
+        "get_hash/is_equal backend (vf/c17_usercls.py; pickle may refuse these with "
+        "NotImplementedError, anything it accepts is held to every invariant), (parent, position, child) nestings over one representative shape per "
         "class (quick: 3 field kinds -- plain field, tuple element, keyword value -- x 34 "
         "children = " + str(len(P.nest_entries("quick"))) + "; thorough: all "
         + str(len(P.nest_entries("thorough"))) + " (parent, position, child) triples), user "
         "nodes inside built-in nodes (" + str(len(P.user_nest_entries("quick"))) + " / "
         + str(len(P.user_nest_entries("thorough"))) + "), equal-but-differently-built variants (keyword arguments in reverse "
-        "order, as a plain dict, comparison operator by name, repeated subtrees as one shared "
+        "order, as a plain dict, comparison operator by name, numpy scalar constants vs their .item() "
+        "(walk digest only), repeated subtrees as one shared "
         "object (vf.spec.build_shared) vs separate equal objects; pickled in one form, rebuilt "
-        "in the other), CompiledExpressions (one per arithmetic shape x variable listing). Producer: "
+        "in the other), CompiledExpressions (one per arithmetic shape x variable listing, and non-symmetric "
+        "shapes under " + str(len(P.NAMINGS)) + " further variable-name alphabets: names "
+        "differing only in case, upper before lower case, digits, underscores, prefixes). Producer: "
         "all " + str(len(PROD_HISTS)) + " sequences over {hash, ==, pickle} of length <= "
         + str(P.PROD_DEPTH) + " ending in pickle, each on a "
-        "fresh object, x protocols 0-5 (quick: nestings under protocols 0, 2, 5 only); "
-        "histories whose pickle bytes are identical are merged "
-        "(the consumer's behaviour is a function of the bytes). Consumer: every transition of "
+        "fresh object, x protocols 0-5; pickles with identical bytes -- from different producer "
+        "histories and from different producer configurations -- are executed once per consumer "
+        "process (its behaviour is a function of the bytes) and stand for all their sources. Consumer: every transition of "
         "the state graph over {unpickle, build, hash, ==, dict/set insert, look-up} ("
         + "%d canonical states, %d transitions, %d maximal histories" % tuple(
             len(x) for x in P.state_graph())
@@ -121,9 +128,13 @@ class C17(Check):
         "look-up reach an expression only through __hash__/__eq__, whose only lasting effect "
         "is assumed to be the same whichever of the four operations triggered it",
         "float nan constants are excluded (nan != nan); NaN nodes are included",
+        "a pickle refusal (NotImplementedError from dumps) is accepted only for the old-style "
+        "classes without init args; for every other pool entry it is a failure",
         "digests: an expression the digest function refuses (exception) must be refused with the "
         "same exception class everywhere; equality of digests is demanded for equal "
-        "expressions of identical constant types only (1 vs 1.0 is not asserted)",
+        "expressions of identical constant types only (1 vs 1.0 is not asserted), except that "
+        "the walk mapper must key a numpy scalar like its .item() (its map_constant says so); "
+        "pytools' KeyBuilder keys constants by type and is not asserted there",
         "compiled expressions: reference value = vf.refsem on the spec with the documented "
         "argument order (listed variables, then the others by name) on the box {-2,1,3}^k",
         "the pool is rebuilt from specs in every process (vf.spec.build); only entry names, "
@@ -166,10 +177,11 @@ class C17(Check):
         n = N_SHARDS[tier]
 
         def pairs():
-            for pc in cfgs:
-                for cc in cfgs:
-                    for k in range(n):
-                        yield (pc, cc, f"shard:{k}:{n}")
+            # one item = one consumer configuration x one pool shard, consuming the pickles of
+            # EVERY producer configuration ("*"); witnesses name one producer and one entry
+            for cc in cfgs:
+                for k in range(n):
+                    yield ("*", cc, f"shard:{k}:{n}")
         return [("pairs", pairs)]
 
     def check_item(self, family, item, tier):
@@ -178,75 +190,93 @@ class C17(Check):
         ddir = tempfile.mkdtemp(prefix="vf-c17-", dir=_scratch_base())
         try:
             shared = self._shared
-            files = [f"prod-{pc}.pkl", f"prod-{pc}.json"]
-            if shared and sel.startswith("shard:") and \
-                    all(os.path.exists(os.path.join(shared, f)) for f in files):
-                for f in files:
-                    os.symlink(os.path.join(shared, f), os.path.join(ddir, f))
+            pcs = P.configs(tier) if pc == "*" else [pc]
+            have = shared and sel.startswith("shard:") and all(
+                os.path.exists(os.path.join(shared, f"prod-{p_}.{x}"))
+                for p_ in pcs for x in ("pkl", "json"))
+            if have:
+                for p_ in pcs:
+                    for x in ("pkl", "json"):
+                        os.symlink(os.path.join(shared, f"prod-{p_}.{x}"),
+                                   os.path.join(ddir, f"prod-{p_}.{x}"))
                 # every producer history is counted once: with the first consumer configuration
                 count_producer = cc == P.configs(tier)[0]
             else:
-                err = self._prod_errors.get(pc) if shared and sel.startswith("shard:") else \
-                    run_worker(pc, ["produce", tier, pc, ddir, sel])
-                if err:
-                    r.evals += 1
-                    r.fail("worker-crash", "worker-crash|producer", err, witness=item)
-                    return r
+                for p_ in pcs:
+                    err = self._prod_errors.get(p_) if shared and sel.startswith("shard:") \
+                        else run_worker(p_, ["produce", tier, p_, ddir, sel])
+                    if err:
+                        r.evals += 1
+                        r.fail("worker-crash", "worker-crash|producer", err, witness=item)
+                        return r
                 count_producer = True
-            err = run_worker(cc, ["consume", tier, cc, pc, ddir, sel])
+            err = run_worker(cc, ["consume", tier, cc, ",".join(pcs), ddir, sel])
             if err:
                 r.evals += 1
                 r.fail("worker-crash", "worker-crash|consumer", err, witness=item)
                 return r
-            with open(os.path.join(ddir, f"prod-{pc}.json")) as fh:
-                prep = json.load(fh)
-            with open(os.path.join(ddir, f"cons-{pc}--{cc}--{sel.replace(':', '_')}.json")) as fh:
+            preps = {}
+            for p_ in pcs:
+                with open(os.path.join(ddir, f"prod-{p_}.json")) as fh:
+                    preps[p_] = json.load(fh)
+            with open(os.path.join(ddir, f"cons-{cc}.json")) as fh:
                 crep = json.load(fh)
         finally:
             shutil.rmtree(ddir, ignore_errors=True)
-        self._digest(r, item, tier, prep, crep, count_producer)
+        self._digest(r, item, tier, preps, crep, count_producer)
         return r
 
-    def _digest(self, r, item, tier, prep, crep, count_producer):
-        pc, cc, sel = item
+    def _digest(self, r, item, tier, preps, crep, count_producer):
+        _, cc, sel = item
+        pcs = list(preps)
         by_name = P.pool_by_name(tier)
         from vf.c17_worker import select
         mine = select(P.pool(tier), sel)
         names = {e["name"] for e in mine}
+        first_shard = not sel.startswith("shard:") or sel.startswith("shard:0:")
         c = crep["counters"]
         r.evals += c["histories"]
-        for k in ("states", "transitions", "histories", "pickles_distinct",
-                  "producer_histories_covered", "digests", "attributed_to_simpler_entry"):
+        for k in ("states", "transitions", "histories", "pickles_distinct", "pair_pickles_covered",
+                  "pair_histories_covered", "producer_histories_covered", "digests",
+                  "attributed_to_simpler_entry"):
             r.count(k, c[k])
         r.count("max_depth", P.PROD_DEPTH + MAX_CONS_HISTORY)
         r.count("max_configurations", len(P.configs(tier)))
-        if prep["str_hash"] != crep["str_hash"]:
-            r.count("items_with_different_string_hash")
+        if first_shard:
+            r.count("pairs", len(pcs))
+            r.count("pairs_with_different_string_hash",
+                    sum(1 for p_ in pcs if preps[p_]["str_hash"] != crep["str_hash"]))
         if count_producer:
-            nh = sum(len(P.protocols_for(e, tier, by_name)) for e in mine) * len(PROD_HISTS)
+            nh = sum(len(P.protocols_for(e, tier, by_name)) for e in mine) * len(PROD_HISTS) \
+                * len(pcs)
             r.evals += nh
             r.count("producer_histories", nh)
-        # non-trivial: at least one pickle of the entry reached the consumer
-        consumed = [n for n in crep["consumed"] if n in names]
-        r.keys.extend((pc, cc, n) for n in consumed)
+            if first_shard:
+                r.count("producer_histories_refused_by_pickle",
+                        sum(preps[p_].get("refused_by_pickle", 0) for p_ in pcs))
+        # non-trivial: at least one pickle of the entry, from that producer, reached the consumer
+        consumed = [(p_, n) for p_, n in crep["consumed"] if n in names]
+        r.keys.extend((p_, cc, n) for p_, n in consumed)
         if consumed:
-            e = by_name[consumed[(len(pc) + len(cc)) % len(consumed)]]
+            k = sum(map(ord, cc + sel))
+            p_, n = consumed[k % len(consumed)]
+            e = by_name[n]
             hs = CONS_HISTORIES if e["family"] != "compiled" else COMPILED_HISTORIES
-            k = sum(map(ord, pc + cc))
             r.sample = {
-                "producer": pc, "consumer": cc, "entry": e["name"], "pickled": show(e["prod"]),
+                "producer": p_, "consumer": cc, "entry": e["name"], "pickled": show(e["prod"]),
                 "rebuilt_as": show(e["cons"]),
                 "producer_history": list(PROD_HISTS[k % len(PROD_HISTS)]),
                 "protocol": k % len(P.PROTOCOLS),
                 "consumer_history": "".join(hs[k % len(hs)]) + " + final observation"}
-        for f in prep["fails"]:
-            if f["entry"] not in names:
-                continue
-            e = by_name[f["entry"]]
-            r.fail(f["kind"], f"{f['kind']}|{e['label']}",
-                   f"producer {pc}, entry {e['name']}, history "
-                   f"{'>'.join(PROD_HISTS[f['phist']])}, protocol {f['proto']}: {f['detail']}",
-                   witness=(pc, cc, f"entry:{e['name']}"))
+        for p_ in pcs:
+            for f in preps[p_]["fails"]:
+                if f["entry"] not in names:
+                    continue
+                e = by_name[f["entry"]]
+                r.fail(f["kind"], f"{f['kind']}|{e['label']}",
+                       f"producer {p_}, entry {e['name']}, history "
+                       f"{'>'.join(PROD_HISTS[f['phist']])}, protocol {f['proto']}: {f['detail']}",
+                       witness=(p_, cc, f"entry:{e['name']}"))
         for name, err in sorted(crep.get("broken_user_classes", {}).items()):
             r.fail("user-class-broken", f"user-class-broken|{name}",
                    f"the class definition of vf.usercls_gen.{name} raises under consumer "
@@ -276,13 +306,15 @@ class C17(Check):
                 sig += f"|P={show_phists(f['phists'])}|p={show_protos(f['protos'])}"
             if f["order"]:
                 sig += f"|C={''.join(f['order'])}"
+            fp = f["pcfgs"][0] if f["pcfgs"] else pcs[0]
             r.fail(f["kind"], sig,
-                   f"producer {pc} -> consumer {cc}, entry {e['name']} "
+                   f"producer {fp} -> consumer {cc} (producers affected: "
+                   f"{','.join(f['pcfgs'])}), entry {e['name']} "
                    f"(pickled {e['prod']!r}"
                    + (f", rebuilt as {e['cons']!r}" if e["cons"] != e["prod"] else "")
                    + f"): {f['detail']}; {f['n']} occurrences, "
                    f"{f['orders_failed']} failing consumer histories{also}",
-                   witness=(pc, cc, f"entry:{e['name']}"))
+                   witness=(fp, cc, f"entry:{e['name']}"))
 
     def describe(self, family, item):
         if isinstance(item, dict):
